@@ -171,7 +171,7 @@ type mgen struct {
 
 var mNames = []string{"a", "B", "name", "Item_1", "été", "x9", "if_", "unlessX", "Ж"}
 var mTexts = []string{"x", "Hello, ", " and ", "!", "a{b", "c}d", "{ x", "y }", "\n", "q\"r/\\", "'it's'", "# not a tag ^ /", "日本語 ", "}} stray"}
-var mValues = []string{"", "v", "q\"/\n", "back\\slash\ttab\r\b\f", "<b>&amp;</b>", "Ünï", "{{x}}", " "}
+var mValues = []string{"", "v", "\b", "a\fb", "\t", "/", "\\", "\"", "q\"/\n", "back\\slash\ttab\r\b\f", "<b>&amp;</b>", "Ünï", "{{x}}", " "}
 
 func (g *mgen) node(d int) *mnode {
 	r := g.r
